@@ -669,9 +669,140 @@ def _parse(path: str, src: str) -> ast.Module:
     key = (path, len(src), digest(src))
     t = _PARSE_CACHE.get(key)
     if t is None:
-        t = ast.parse(src, filename=path)
+        t = _Normalise().visit(ast.parse(src, filename=path))
         _PARSE_CACHE[key] = t
     return t
+
+
+def inline_single_use_temporaries(fn: ast.AST) -> None:
+    """In place: `x = e; return x` -> `return e` and `x = e; raise C(x)` -> `raise C(e)` when the name x is stored exactly
+    only by such assignments and loaded only by the statement that follows them (nested functions included).  Introducing or removing such a temporary
+    is the most common behaviour-preserving edit; both spellings get the same tree.  Also used on patterns."""
+    stores: dict[str, int] = {}
+    loads: dict[str, int] = {}
+    for n in ast.walk(fn):
+        if isinstance(n, ast.Name):
+            d = stores if isinstance(n.ctx, (ast.Store, ast.Del)) else loads
+            d[n.id] = d.get(n.id, 0) + 1
+        elif isinstance(n, ast.arg):
+            stores[n.arg] = stores.get(n.arg, 0) + 1
+        elif isinstance(n, (ast.Global, ast.Nonlocal)):
+            for x in n.names:
+                stores[x] = stores.get(x, 0) + 2
+
+    def pair(st, nxt):
+        """name of the temporary when (st, nxt) is `x = e; return x` or `x = e; raise C(x)`"""
+        if not (isinstance(st, ast.Assign) and len(st.targets) == 1 and isinstance(st.targets[0], ast.Name)) or nxt is None:
+            return None
+        x = st.targets[0].id
+        if isinstance(nxt, ast.Return) and isinstance(nxt.value, ast.Name) and nxt.value.id == x:
+            return x
+        if isinstance(nxt, ast.Raise) and isinstance(nxt.exc, ast.Call) and len(nxt.exc.args) == 1 and not nxt.exc.keywords and isinstance(nxt.exc.args[0], ast.Name) and nxt.exc.args[0].id == x:
+            return x
+        return None
+
+    blocks = []
+    for n in ast.walk(fn):
+        for field in ('body', 'orelse', 'finalbody'):
+            v = getattr(n, field, None)
+            if isinstance(v, list) and v and isinstance(v[0], ast.stmt):
+                blocks.append((n, field))
+    pairs: dict[str, int] = {}
+    for n, field in blocks:
+        v = getattr(n, field)
+        for a, b in zip(v, v[1:]):
+            x = pair(a, b)
+            if x:
+                pairs[x] = pairs.get(x, 0) + 1
+    # every write of x is such an assignment and every read is the return / raise that follows it
+    ok = {x for x, k in pairs.items() if stores.get(x) == k and loads.get(x) == k}
+
+    def block(stmts: list) -> list:
+        out = []
+        i = 0
+        while i < len(stmts):
+            st = stmts[i]
+            nxt = stmts[i + 1] if i + 1 < len(stmts) else None
+            x = pair(st, nxt)
+            if x in ok:
+                if isinstance(nxt, ast.Return):
+                    nxt.value = st.value
+                else:
+                    nxt.exc.args[0] = st.value
+                out.append(nxt)
+                i += 2
+                continue
+            out.append(st)
+            i += 1
+        return out
+
+    for n, field in blocks:
+        setattr(n, field, block(getattr(n, field)))
+
+
+class _Normalise(ast.NodeTransformer):
+    """Normal form of function bodies shared by all rules (positions are kept):
+
+    * an annotated assignment with a value inside a function is the plain assignment (annotations of locals and of
+      attributes are never evaluated by a function body, they are not behaviour);
+    * `logger.debug(...)` / `logger.info(...)` statements are dropped (tracing is not behaviour for any property here;
+      warnings and errors stay);
+    * `n = n + 1` (plain name, numeric constant) is `n += 1`;
+    * `x = e` immediately followed by `return x` or `raise C(x)`, x being written once and read once in the whole
+      function, is `return e` / `raise C(e)` (see inline_single_use_temporaries).
+    """
+
+    def __init__(self):
+        self.depth = 0
+
+    def _func(self, node):
+        self.depth += 1
+        self.generic_visit(node)
+        self.depth -= 1
+        if self.depth == 0 or True:
+            inline_single_use_temporaries(node)
+        for field in ('body',):
+            if not getattr(node, field):
+                setattr(node, field, [ast.copy_location(ast.Pass(), node)])
+        return node
+
+    visit_FunctionDef = _func
+    visit_AsyncFunctionDef = _func
+
+    def visit_ClassDef(self, node):
+        saved, self.depth = self.depth, 0
+        self.generic_visit(node)
+        self.depth = saved
+        return node
+
+    def visit_AnnAssign(self, node):
+        self.generic_visit(node)
+        if self.depth and node.value is not None:
+            return ast.copy_location(ast.Assign(targets=[node.target], value=node.value, type_comment=None), node)
+        return node
+
+    def visit_Assign(self, node):
+        self.generic_visit(node)
+        # `n = n + 1` on a plain name and a numeric constant is `n += 1`
+        v = node.value
+        if (len(node.targets) == 1 and isinstance(node.targets[0], ast.Name) and isinstance(v, ast.BinOp) and isinstance(v.left, ast.Name) and v.left.id == node.targets[0].id
+                and isinstance(v.right, ast.Constant) and isinstance(v.right.value, (int, float)) and not isinstance(v.right.value, bool) and isinstance(v.op, (ast.Add, ast.Sub, ast.Mult))):
+            return ast.copy_location(ast.AugAssign(target=node.targets[0], op=v.op, value=v.right), node)
+        return node
+
+    def visit_Expr(self, node):
+        v = node.value
+        if self.depth and isinstance(v, ast.Call) and isinstance(v.func, ast.Attribute) and v.func.attr in ('debug', 'info') and isinstance(v.func.value, ast.Name) and v.func.value.id in ('logger', 'logging'):
+            return None
+        return node
+
+    def generic_visit(self, node):
+        super().generic_visit(node)
+        # a compound statement whose block lost all its statements keeps a `pass`
+        for field in ('body', 'orelse', 'finalbody'):
+            if field in ('body',) and isinstance(node, (ast.If, ast.For, ast.While, ast.With, ast.Try, ast.ExceptHandler)) and getattr(node, field, None) == []:
+                setattr(node, field, [ast.copy_location(ast.Pass(), node)])
+        return node
 
 
 def load_sources(repo: str = REPO) -> dict[str, str]:
